@@ -47,7 +47,8 @@ theorem write_scaffold_is_source (file : Bytes) (idx : List (Str × FastaInfo)) 
       = (streamScaffold file idx bs w sc).map (·.out) := by
   unfold Gen.Imp.FastaStream_write_scaffold
   dsimp only
-  rw [ImpStream.forIn_nextM (ImpStream.rowStep w (fun r => modelGapIter bs r Gen.gapCharacter) (modelSeqIter file idx bs))]
+  rw [ImpStream.forIn_nextM_enc ImpStream.enc2
+    (ImpStream.rowStep w (fun r => modelGapIter bs r Gen.gapCharacter) (modelSeqIter file idx bs)) _ (w, _)]
   · -- after the loop: the model's fold, projected to `(want, out)`, and the closing newline
     have hg : (fun r => modelGapIter bs r Gen.gapCharacter) = (fun r => ImpStream.gapIter bs r Gen.gapCharacter) := by
       funext r; cases r <;> rfl
@@ -64,7 +65,8 @@ theorem write_scaffold_is_source (file : Bytes) (idx : List (Str × FastaInfo)) 
     cases List.foldlM (streamRow file idx bs w) { out := [62] ++ strToBytes sc.name ++ [10], want := w } sc.rows with
     | error e => rfl
     | ok log =>
-      by_cases hw : log.want = w <;> simp [bind, Except.bind, Except.map, pure, Except.pure, ImpStream.proj, hw]
+      by_cases hw : log.want = w <;>
+        simp [bind, Except.bind, Except.map, pure, Except.pure, ImpStream.proj, ImpStream.enc2, hw]
   · intro row hrow s
     obtain ⟨want, out⟩ := s
     have hf := hfuel row hrow
@@ -85,11 +87,11 @@ theorem write_scaffold_is_source (file : Bytes) (idx : List (Str × FastaInfo)) 
           · cases hX; exact hf.1
           · exact hf.2 cs hX
         simp only [bind, Except.bind, Except.map]
-        rw [ImpStream.forIn_next (ImpStream.chunkStep w)]
+        rw [ImpStream.forIn_next_enc ImpStream.enc2 (ImpStream.chunkStep w) cs (want, out)]
         intro c hc s
         obtain ⟨want, out⟩ := s
-        refine ImpStream.chunk_body w fuel _ _ _ ?_ ?_ ?_ c (hcs c hc) want out
-        · intro s; rfl
+        refine ImpStream.chunk_body ImpStream.st3 ImpStream.enc2 w fuel _ _ _ ?_ ?_ ?_ c (hcs c hc) want out
+        · intro want c out; rfl
         · intro want c out
           dsimp only
           by_cases h1 : (c.read want).1.isEmpty = true
